@@ -10,6 +10,7 @@ CONSTANTS
   Plus = "logaddexp"
   Times = "add"
   LeafKind = "log"
+  Param = FALSE
   Tag = "sp_logaddexp3"
 INVARIANT Inv_OracleInputs
 INVARIANT Emit
